@@ -6,7 +6,10 @@ attributes every agent effect (snapshot pushed / log / metric / span opened) to 
 """
 import random
 
-from simkit import common, hostgen, host, world, shims, kernel
+import os
+import sys
+
+from simkit import common, hostgen, host, world, shims, kernel, linetrace, seams
 from simkit.common import V
 from simkit.refmodel import RefLimiter
 
@@ -40,8 +43,19 @@ def _prog(pspec):
     return hostgen.gen_program(r, pspec["name"], nfuncs=pspec["nfuncs"])
 
 
+CONC_SRC = "def walk(n):\n" + "".join("    probe(%d)\n" % i for i in range(1, 7)) + "    return n\n"
+
+
 def generate(seed, tier):
     r = random.Random(seed)
+    if r.random() < 0.12:
+        # arm "two-files": two application threads, each walking through its own source file, with tracepoints in both
+        # files - and a pre-emption point at every line of the agent's matching code. Whatever the matching keeps between
+        # events is seen by both threads: every line with a tracepoint acts on every pass of its own thread, no other
+        return {"arm": "two-files", "a": sorted(r.sample(range(1, 7), r.randrange(1, 4))),
+                "b": sorted(r.sample(range(1, 7), r.randrange(0, 4))), "passes": r.choice((2, 3, 5)),
+                "same_file": r.random() < 0.25,
+                "knobs": common.race_knobs(r, stall_p=0.0, p_switch=r.choice((0.05, 0.15, 0.3)))}
     pspec = {"seed": seed, "name": "simhost_%d" % (seed % 7), "nfuncs": r.randrange(2, 6)}
     p = _prog(pspec)
     lines = p.stmt_lines(kinds=("assign", "stmt", "call", "return", "if", "loop", "raise", "yield"))
@@ -87,6 +101,14 @@ def generate(seed, tier):
 
 
 def shrink_candidates(s):
+    if s.get("arm") == "two-files":
+        if s["passes"] > 2:
+            yield dict(s, passes=2)
+        for key_ in ("a", "b"):
+            for cand in common.drop_one(s[key_]):
+                if cand or key_ == "b":
+                    yield dict(s, **{key_: cand})
+        return
     for cand in common.drop_one(s["tps"]):
         yield dict(s, tps=cand)
     if len(s["threads"]) > 1:
@@ -129,7 +151,77 @@ def actions_of(kind):
             "snaplog": ("snapshot", "log"), "all": ("snapshot", "log", "metric", "span")}[kind]
 
 
+def _two_files(s, ch):
+    viol = []
+    info = {"n": 0}
+
+    def main(k):
+        progs = []
+        for nm in ("simwalk_a", "simwalk_a" if s["same_file"] else "simwalk_b"):
+            p = hostgen.start_program(nm, prelude=False)
+            for ln in CONC_SRC.strip("\n").split("\n"):
+                p.lines.append(ln)
+            p.finish()
+            progs.append(p)
+        w = world.World(k, cfg={"NO_TRACE": True}, python_plugin=False)
+        w.start()
+        handler = w.handler
+        args = {"fire_count": "-1", "fire_period": "-100000000"}
+        trig = [world.line_trigger("a%d" % i, progs[0].basename, 1 + i, args) for i in s["a"]]
+        if not s["same_file"]:
+            trig += [world.line_trigger("b%d" % i, progs[1].basename, 1 + i, args) for i in s["b"]]
+        handler.new_config(trig)
+        src = seams.SRC
+        tracer = linetrace.LineTracer(k, (os.path.join(src, "deep/processor/trigger_handler.py"),
+                                          os.path.join(src, "deep/api/tracepoint/trigger.py")))
+        tracer.install()
+
+        def probe(i):
+            handler.trace_call(sys._getframe(1), "line", None)
+        gs = [p.load({"probe": probe}) for p in progs]
+
+        def walker(g):
+            for n in range(s["passes"]):
+                g["walk"](n)
+                k.yield_point("walker")
+        host.run_threads(k, [lambda: walker(gs[0]), lambda: walker(gs[1])], names=["walk_a", "walk_b"])
+        tracer.uninstall()
+        got = {}
+        for (_, th, es) in w.pushed:
+            got[(th, es.tracepoint.id)] = got.get((th, es.tracepoint.id), 0) + 1
+        want = {}
+        for i in s["a"]:
+            want[("walk_a", "a%d" % i)] = s["passes"]
+            if s["same_file"]:
+                want[("walk_b", "a%d" % i)] = s["passes"]
+        if not s["same_file"]:
+            for i in s["b"]:
+                want[("walk_b", "b%d" % i)] = s["passes"]
+        info["n"] = sum(got.values())
+        for key_ in sorted(set(got) | set(want)):
+            if got.get(key_, 0) < want.get(key_, 0):
+                viol.append(V("missing-snapshot-line:concurrent", "thread %s reached the line of %s %d times, it acted %d "
+                              "times (tracepoints a%s / b%s, %s)" % (key_[0], key_[1], want[key_], got.get(key_, 0), s["a"],
+                                                                      s["b"], "one file" if s["same_file"] else "two files")))
+            elif got.get(key_, 0) > want.get(key_, 0):
+                viol.append(V("spurious-snapshot-line:concurrent", "%s acted %d times in thread %s, its line was reached %d "
+                              "times there" % (key_[1], got[key_], key_[0], want.get(key_, 0))))
+        w.deep.shutdown()
+        w.close()
+
+    k = common.run_in_kernel(ch, s["knobs"], main)
+    k.probe("concurrent_matches", info["n"])
+    seen, vs = set(), []
+    for v in viol:
+        if v["sig"] not in seen:
+            seen.add(v["sig"])
+            vs.append(v)
+    return common.result(k, vs, key=repr(("two-files", s["a"], s["b"], s["passes"], k.order_sig.hexdigest()[:8])))
+
+
 def execute(scenario, ch):
+    if scenario.get("arm") == "two-files":
+        return _two_files(scenario, ch)
     viol = []
     info = {"fired": 0, "events": 0, "pattern": None}
 
